@@ -94,11 +94,23 @@ theorem pick_isStr {x y : Val} (hx : x.isStr = false) (hy : y.isStr = false) (k 
 theorem pyVal_isStr (op : BinOp) (x y : Val) : (op.pyVal x y).isStr = false := by
   unfold BinOp.pyVal; split <;> rfl
 
+/-- the two shapes `Expr.binTyOk` admits -/
+theorem binTyOk_cases {te : C.TyEnv} {op : BinOp} {a b : Expr} (h : Expr.binTyOk te op a b = true) :
+    (inferTy te a ≠ .string ∧ inferTy te b ≠ .string) ∨ (op = .add ∧ inferTy te a = .string ∧ inferTy te b = .string) := by
+  simp only [Expr.binTyOk, Bool.or_eq_true, Bool.and_eq_true, bne_iff_ne, ne_eq, beq_iff_eq] at h
+  rcases h with h | h
+  · exact .inl h
+  · exact .inr ⟨h.1.1.1, h.1.1.2, h.1.2⟩
+
+theorem pyStr_text {t : Ty} {v : Val} {s : String} (hty : t.holds v = true) (hnb : t ≠ .bool) (h : v.pyStr = .ok s) :
+    (C.conv t v).text = s := by
+  cases t <;> cases v <;> simp_all [Ty.holds, Val.pyStr, C.conv, Val.text, Val.toInt] <;> (cases h; rfl)
+
 theorem typeOf_eq_inferTy (te : C.TyEnv) (e : Expr) (h : e.wt te = true) : C.typeOf te e = inferTy te e := by
   induction e with
   | bin op a b iha ihb =>
     simp only [Expr.wt, Bool.and_eq_true] at h
-    simp only [C.typeOf, inferTy, iha h.1.1.1, ihb h.1.1.2]
+    simp only [C.typeOf, inferTy, iha h.1.1, ihb h.1.2]
   | neg a _ =>
     simp only [Expr.wt, Bool.and_eq_true, beq_iff_eq] at h
     simp only [C.typeOf, inferTy, h.2]
@@ -128,18 +140,24 @@ theorem typed_val (te : C.TyEnv) (sp sc : Store) (hrel : Rel te sp sc) (e : Expr
       rw [hg] at hpy; cases hpy
       exact (hrel x t ht v hg).2
   | bin op a b iha ihb =>
-    simp only [Expr.wt, Bool.and_eq_true, bne_iff_ne, ne_eq] at hwt
+    simp only [Expr.wt, Bool.and_eq_true] at hwt
     rw [Py.eval] at hpy
     obtain ⟨x, hx, hpy⟩ := bind_ok hpy
     obtain ⟨y, hy, hpy⟩ := bind_ok hpy
-    have hxs := holds_num (iha x hwt.1.1.1 hx) hwt.1.2
-    have hys := holds_num (ihb y hwt.1.1.2 hy) hwt.2
-    rw [pyEval_num hxs hys] at hpy
-    split at hpy
-    · cases hpy
-    · cases hpy
-      simp only [inferTy, hwt.1.2, hwt.2, or_self, if_false]
-      exact holds_int_of_num (pyVal_isStr _ _ _)
+    rcases binTyOk_cases hwt.2 with ⟨ha, hb⟩ | ⟨rfl, ha, hb⟩
+    · have hxs := holds_num (iha x hwt.1.1 hx) ha
+      have hys := holds_num (ihb y hwt.1.2 hy) hb
+      rw [pyEval_num hxs hys] at hpy
+      split at hpy
+      · cases hpy
+      · cases hpy
+        simp only [inferTy, ha, hb, or_self, if_false]
+        exact holds_int_of_num (pyVal_isStr _ _ _)
+    · obtain ⟨s, rfl⟩ := holds_string (ha ▸ iha x hwt.1.1 hx)
+      obtain ⟨t, rfl⟩ := holds_string (hb ▸ ihb y hwt.1.2 hy)
+      simp only [BinOp.pyEval, if_true] at hpy
+      cases hpy
+      simp only [inferTy, ha, true_or, if_true]; rfl
   | neg a _ =>
     simp only [Expr.wt, Bool.and_eq_true, beq_iff_eq] at hwt
     rw [Py.eval] at hpy
@@ -196,6 +214,11 @@ theorem typed_val (te : C.TyEnv) (sp sc : Store) (hrel : Rel te sp sc) (e : Expr
     rw [pyPick_num hxs hys] at hpy
     cases hpy
     exact holds_int_of_num (pick_isStr hxs hys k)
+  | toStr a =>
+    rw [Py.eval] at hpy
+    obtain ⟨x, _, hpy⟩ := bind_ok hpy
+    obtain ⟨t, _, hpy⟩ := bind_ok hpy
+    cases hpy; rfl
 
 /-- a bool-typed well-typed expression evaluates (in Python) to a bool -/
 theorem bool_val (te : C.TyEnv) (sp sc : Store) (hrel : Rel te sp sc) (e : Expr) (v : Val)
@@ -275,23 +298,33 @@ theorem expr_sim (te : C.TyEnv) (sp sc : Store) (hrel : Rel te sp sc) (e : Expr)
       left
       simp only [C.eval, (hrel x t ht v hg).1, inferTy, ht, Option.getD_some]
   | bin op a b iha ihb =>
-    simp only [Expr.wt, Bool.and_eq_true, bne_iff_ne, ne_eq] at hwt
+    simp only [Expr.wt, Bool.and_eq_true] at hwt
     rw [Py.eval] at hpy
     obtain ⟨x, hx, hpy⟩ := bind_ok hpy
     obtain ⟨y, hy, hpy⟩ := bind_ok hpy
-    have htx := typed_val te sp sc hrel a x hwt.1.1.1 hx
-    have hty := typed_val te sp sc hrel b y hwt.1.1.2 hy
-    have hxs := holds_num htx hwt.1.2
-    have hys := holds_num hty hwt.2
-    obtain ⟨rfl, hz⟩ := pyEval_ok hxs hys hpy
+    have htx := typed_val te sp sc hrel a x hwt.1.1 hx
+    have hty := typed_val te sp sc hrel b y hwt.1.2 hy
     rw [C.eval]
-    rcases iha x hwt.1.1.1 hx with h | h
+    rcases iha x hwt.1.1 hx with h | h
     · rw [h, ok_bind]
-      rcases ihb y hwt.1.1.2 hy with h' | h'
-      · rw [h', ok_bind, binopV_num (by rw [conv_isStr htx]; exact hxs) (by rw [conv_isStr hty]; exact hys),
-          conv_toInt _ x htx, conv_toInt _ y hty]
-        simp only [inferTy, hwt.1.2, hwt.2, or_self, if_false, conv_pyVal]
-        exact binop_cases _ _ _ hz
+      rcases ihb y hwt.1.2 hy with h' | h'
+      · rw [h', ok_bind]
+        rcases binTyOk_cases hwt.2 with ⟨ha, hb⟩ | ⟨rfl, ha, hb⟩
+        · have hxs := holds_num htx ha
+          have hys := holds_num hty hb
+          obtain ⟨rfl, hz⟩ := pyEval_ok hxs hys hpy
+          rw [binopV_num (by rw [conv_isStr htx]; exact hxs) (by rw [conv_isStr hty]; exact hys),
+            conv_toInt _ x htx, conv_toInt _ y hty]
+          simp only [inferTy, ha, hb, or_self, if_false, conv_pyVal]
+          exact binop_cases _ _ _ hz
+        · -- `+` on two strings: concatenation on both sides
+          rw [ha] at htx; rw [hb] at hty
+          obtain ⟨s, rfl⟩ := holds_string htx
+          obtain ⟨t, rfl⟩ := holds_string hty
+          simp only [BinOp.pyEval, if_true] at hpy
+          cases hpy
+          left
+          simp only [inferTy, ha, hb, true_or, if_true, conv_str_str, C.binopV]
       · right; exact ub_bind _ h'
     · right; exact ub_bind _ h
   | neg a iha =>
@@ -435,6 +468,18 @@ theorem expr_sim (te : C.TyEnv) (sp sc : Store) (hrel : Rel te sp sc) (e : Expr)
         show Except.ok (Val.int (k.cpick (.int x.toInt) (.int y.toInt)).toInt) = .ok (Val.int (k.pick x y).toInt)
         rw [cpick_toInt]
       · right; exact ub_bind _ h'
+    · right; exact ub_bind _ h
+  | toStr a iha =>
+    simp only [Expr.wt, Bool.and_eq_true, bne_iff_ne, ne_eq] at hwt
+    rw [Py.eval] at hpy
+    obtain ⟨x, hx, hpy⟩ := bind_ok hpy
+    obtain ⟨t, ht, hpy⟩ := bind_ok hpy
+    cases hpy
+    rw [C.eval]
+    rcases iha x hwt.1 hx with h | h
+    · rw [h, ok_bind]
+      left
+      rw [pure_eq_ok, pyStr_text (typed_val te sp sc hrel a x hwt.1 hx) hwt.2 ht]; rfl
     · right; exact ub_bind _ h
 
 end Reduino.Lemmas.C01
